@@ -14,8 +14,18 @@ decided by laue_ref.rank_table: rank of the coordinate projection of the invaria
 fill_cij) x n_V in {1,2,5}: the real `fill_cij(table, system)` on the table [V, S-columns of an invariant
 tensor generated from independent parameters] must return that invariant tensor.
 
+Every table is presented with three kinds of ROW LABELS (the oracle is positional: row k of the result is the
+invariant tensor at the k-th volume of the table as passed; V untouched): the default RangeIndex; labels n-1..0
+(what `table.sort_values("V")` leaves behind); offset, non-contiguous labels (a row selection `big.iloc[[1,3,4,..]]`).
+
 Part 3.  `apply_symetry_on_elast_data(data, symmetry)` on ElastData objects: minimal sufficient sets and full
 non-vanishing sets of all systems, symmetry = {"system": s} and the full default key set.
+
+Part 4 (mode B).  Histories (depth <= 3, thorough 4) over {apply(dictA, table1), apply(dictA, table2),
+apply(dictB, table1), fill_cij(table1)} where dictA = {"system": s} and dictB = the full default key set are dict
+OBJECTS shared by all operations of a history (as one settings object applied to several tables in a session); after
+EVERY operation the result must be the invariant tensor.  A changed settings dict is not a violation by itself (C08
+does not state it); it is mentioned in the message of the wrong result it causes.
 
 Tolerance (DESIGN §5, unit-free identity): |got - want| <= 1e-9*scale + 1e-12*scale, scale = largest |component|
 of the expected tensor.  The non-modulus column V must come back bit-identical.
@@ -126,7 +136,7 @@ def is_modulus_name(name):
     return str(name).lower() in L.INDEX
 
 
-def check_invariant_result(system, S, E, vin, res, viol, tag):
+def check_invariant_result(system, S, E, vin, res, viol, tag, note=""):
     """`res` (DataFrame returned by the real code) against the invariant tensor E (21, nv).
     S: supplied component indices; vin: the V column passed in."""
     import pandas
@@ -154,7 +164,7 @@ def check_invariant_result(system, S, E, vin, res, viol, tag):
         if j in nvn:
             if name not in cols:
                 viol.append(V(f"{tag}:{system}:missing-component",
-                              f"{system} S={names(S)} nV={nv}: non-vanishing component {name} is absent from {list(res.columns)}"))
+                              f"{system} S={names(S)} nV={nv}{note}: non-vanishing component {name} is absent from {list(res.columns)}"))
                 continue
             got = numpy.asarray(cols[name], dtype=float)
             err = numpy.abs(got - E[j])
@@ -163,11 +173,11 @@ def check_invariant_result(system, S, E, vin, res, viol, tag):
                 kind = "supplied-changed" if j in S else "dependent-wrong"
                 ratio = got[i] / E[j, i] if E[j, i] else float("nan")
                 viol.append(V(f"{tag}:{system}:{kind}",
-                              f"{system} S={names(S)} nV={nv}: {name} at volume {i} is {float(got[i])!r}, invariant tensor has {float(E[j, i])!r} "
+                              f"{system} S={names(S)} nV={nv}{note}: {name} at volume {i} is {float(got[i])!r}, invariant tensor has {float(E[j, i])!r} "
                               f"(ratio {ratio:.6g}, tolerance {tol:.3g})"))
         elif name in cols:
             viol.append(V(f"{tag}:{system}:vanishing-present",
-                          f"{system} S={names(S)} nV={nv}: component {name} vanishes in this class but column is present "
+                          f"{system} S={names(S)} nV={nv}{note}: component {name} vanishes in this class but column is present "
                           f"with values {numpy.asarray(cols[name]).tolist()}"))
 
 
@@ -237,6 +247,48 @@ def run_subspace(case):
 
 # --------------------------------------------------------------------------- part 2
 
+ROWS = ("default", "reversed", "offset")
+
+
+def relabel_rows(table, mode):
+    """The same table by POSITION (same rows, same order, same dtypes) with other row labels, produced by the
+    pandas operations that give such labels in practice:
+      reversed  rows stored in ascending V, then sort_values("V", ascending=False): labels n-1..0
+      offset    two filler rows at positions 0 and 2 of a larger table, then a row selection .iloc[[1,3,4,..]]:
+                labels 1,3,4,..,n+1 (offset and non-contiguous)"""
+    import pandas
+    n = len(table)
+    if mode == "default":
+        out = table
+    elif mode == "reversed":
+        v = table["V"].to_numpy()
+        if n > 1 and not numpy.all(numpy.diff(v) < 0):
+            raise HarnessError("relabel_rows: V must be strictly descending")
+        big = table.iloc[::-1].reset_index(drop=True)
+        out = big.sort_values("V", ascending=False)
+    elif mode == "offset":
+        sel = [1] + list(range(3, n + 2))
+        src = [0, 0, 0] + list(range(1, n))          # position -> source row of `table`; 0 and 2 are fillers
+        big = table.iloc[src].reset_index(drop=True)
+        for col in big.columns:                       # fillers carry other numbers (same dtype)
+            arr = big[col].to_numpy().copy()
+            arr[0] = arr[0] + 1000
+            arr[2] = arr[2] + 2000
+            big[col] = arr
+        out = big.iloc[sel]
+    else:
+        raise HarnessError(f"unknown row label mode {mode}")
+    if len(out) != n or list(out.columns) != list(table.columns):
+        raise HarnessError("relabel_rows changed the shape")
+    for col in table.columns:
+        a, b = out[col].to_numpy(), table[col].to_numpy()
+        if a.dtype != b.dtype or not numpy.array_equal(a, b):
+            raise HarnessError(f"relabel_rows changed the content of {col}")
+    if mode != "default" and n > 1 and list(out.index) == list(range(n)):
+        raise HarnessError("relabel_rows left the default labels")
+    return out
+
+
 def build_table(system, S, E, nv, ints=False):
     import pandas
     data = {"V": volumes(nv, ints)}
@@ -261,22 +313,26 @@ def run_fill(case):
             S = L.mask_to_subset(s, mask)
             if not L.is_sufficient(s, S):
                 raise HarnessError(f"{s}: mask {mask} is not sufficient")
-            table = build_table(s, S, E, nv)
-            vin = table["V"].to_numpy().copy()
-            nfill += 1
-            try:
-                res = fill_cij(table.copy(), s)
-            except BaseException as ex:
-                if isinstance(ex, (KeyboardInterrupt, SystemExit)):
-                    raise
-                viol.append(V(f"c08:fill:{s}:raises:{type(ex).__name__}",
-                              f"fill_cij(table[V,{','.join(names(S))}], {s!r}) with nV={nv} raised {type(ex).__name__}: {str(ex)[:160]} "
-                              f"although the supplied components determine the tensor"))
-                outcomes.add("raises")
-                continue
-            n0 = len(viol)
-            check_invariant_result(s, S, E, vin, res, viol, "c08:fill")
-            outcomes.add("ok" if len(viol) == n0 else "wrong")
+            for rows in ROWS:
+                if rows == "reversed" and nv == 1:
+                    continue                 # one row: the reversed labels are the default labels
+                table = relabel_rows(build_table(s, S, E, nv), rows)
+                vin = table["V"].to_numpy().copy()
+                nfill += 1
+                tag = "c08:fill" if rows == "default" else f"c08:fill:rows-{rows}"
+                try:
+                    res = fill_cij(table.copy(), s)
+                except BaseException as ex:
+                    if isinstance(ex, (KeyboardInterrupt, SystemExit)):
+                        raise
+                    viol.append(V(f"{tag}:{s}:raises:{type(ex).__name__}",
+                                  f"fill_cij(table[V,{','.join(names(S))}], {s!r}) with nV={nv}, row labels {list(table.index)} raised "
+                                  f"{type(ex).__name__}: {str(ex)[:160]} although the supplied components determine the tensor"))
+                    outcomes.add("raises")
+                    continue
+                n0 = len(viol)
+                check_invariant_result(s, S, E, vin, res, viol, tag, note=f" row labels {list(table.index)}")
+                outcomes.add("ok" if len(viol) == n0 else "wrong")
     return {"viol": dedupe(viol, 1), "outcome": f"fill:{s}:" + "+".join(sorted(outcomes)),
             "key": f"fill:{s}:{mask}", "nfill": nfill}
 
@@ -313,31 +369,104 @@ def run_elastdata(case):
                     "outcome": "elastdata:raises"}
     if ret is not None and ret is not data:
         data = ret       # tolerate a functional variant
+    check_elastdata(data, s, S, E, vol, tag, viol, "c08:elastdata")
+    return {"viol": dedupe(viol), "outcome": f"elastdata:{s}:{'ok' if not viol else 'wrong'}",
+            "key": f"elastdata:{s}:{mask}:{nv}:{case['full_keys']}"}
+
+
+def make_elastdata(S, E, vol):
+    from cij.io.traditional.elast_dat import ElastData, ElastVolumeData
+    from cij.util import c_
+    from collections import OrderedDict
+    nv = len(vol)
+    data = ElastData(float(vol[0]), nv, 120.5, [], [])
+    for i in range(nv):
+        data.volumes.append(ElastVolumeData(float(vol[i]), OrderedDict((c_(*L.PAIRS21[j]), float(E[j, i])) for j in S)))
+    return data
+
+
+def check_elastdata(data, s, S, E, vol, tag, viol, sig):
+    """an ElastData object after symmetry was applied, against the invariant tensor E (21, nv)"""
+    nv = len(vol)
+    scale = float(numpy.abs(E).max())
+    tol = RTOL * scale + ATOL_REL * scale
     nvn = set(L.nonvanishing(s))
     if len(data.volumes) != nv:
-        viol.append(V(f"c08:elastdata:{s}:row-count", f"{tag}: {len(data.volumes)} volumes afterwards"))
+        viol.append(V(f"{sig}:{s}:row-count", f"{tag}: {len(data.volumes)} volumes afterwards"))
     for i, v in enumerate(data.volumes[:nv]):
         if v.volume != float(vol[i]):
-            viol.append(V(f"c08:elastdata:{s}:V-changed", f"{tag}: volume {i} is {v.volume!r}, was {float(vol[i])!r}"))
+            viol.append(V(f"{sig}:{s}:V-changed", f"{tag}: volume {i} is {v.volume!r}, was {float(vol[i])!r}"))
         got = {}
         for key, val in v.static_elastic_modulus.items():
             try:
                 a, b = key.v
                 got[L.PAIRS21.index((min(a, b), max(a, b)))] = float(val)
             except Exception:
-                viol.append(V(f"c08:elastdata:{s}:unexpected-key", f"{tag}: key {key!r} in the filled table of volume {i}"))
+                viol.append(V(f"{sig}:{s}:unexpected-key", f"{tag}: key {key!r} in the filled table of volume {i}"))
         for j, name in enumerate(L.NAMES):
             if j in nvn:
                 if j not in got:
-                    viol.append(V(f"c08:elastdata:{s}:missing-component", f"{tag}: {name} absent at volume {i}"))
+                    viol.append(V(f"{sig}:{s}:missing-component", f"{tag}: {name} absent at volume {i}"))
                 elif not abs(got[j] - E[j, i]) <= tol:
                     kind = "supplied-changed" if j in S else "dependent-wrong"
-                    viol.append(V(f"c08:elastdata:{s}:{kind}",
+                    viol.append(V(f"{sig}:{s}:{kind}",
                                   f"{tag}: {name} at volume {i} is {got[j]!r}, invariant tensor has {float(E[j, i])!r}"))
             elif j in got:
-                viol.append(V(f"c08:elastdata:{s}:vanishing-present", f"{tag}: vanishing component {name} present ({got[j]!r}) at volume {i}"))
-    return {"viol": dedupe(viol), "outcome": f"elastdata:{s}:{'ok' if not viol else 'wrong'}",
-            "key": f"elastdata:{s}:{mask}:{nv}:{case['full_keys']}"}
+                viol.append(V(f"{sig}:{s}:vanishing-present", f"{tag}: vanishing component {name} present ({got[j]!r}) at volume {i}"))
+
+
+# --------------------------------------------------------------------------- part 4 (mode B)
+
+HISTORY_OPS = ("A1", "A2", "B1", "F")     # apply(dictA, table1), apply(dictA, table2), apply(dictB, table1), fill_cij(table1)
+
+
+def run_history(case):
+    """One history of applications sharing the settings dict objects dictA and dictB.  table1 = the minimal
+    sufficient set (2 volumes, float parameters), table2 = the full non-vanishing set (3 volumes, the integer-valued
+    parameter set): fresh data objects for every operation, only the settings objects are shared."""
+    from cij.io.traditional.elast_dat import apply_symetry_on_elast_data
+    from cij.util.fill import fill_cij
+    s, hist = case["system"], case["history"]
+    n = len(L.nonvanishing(s))
+    S1 = L.mask_to_subset(s, minimal_mask(s))
+    S2 = L.mask_to_subset(s, (1 << n) - 1)
+    E1, vol1 = expected_tensor(s, 2), volumes(2)
+    E2, vol2 = expected_tensor(s, 3, ints=True), volumes(3)
+    dictA = {"system": s}
+    dictB = dict({"system": s}, **DEFAULT_SYMMETRY)
+    snapA, snapB = dict(dictA), dict(dictB)
+    viol = []
+    digests = []
+    with scratch_cwd():
+        for step, op in enumerate(hist, 1):
+            tag = f"{s} history={'>'.join(hist[:step])} (A=apply with shared dict {snapA}, B=apply with shared full-key dict, 1/2 = table, F=fill_cij)"
+            n0 = len(viol)
+            try:
+                if op == "F":
+                    table = build_table(s, S1, E1, 2)
+                    vin = table["V"].to_numpy().copy()
+                    res = fill_cij(table.copy(), s)
+                    check_invariant_result(s, S1, E1, vin, res, viol, "c08:history:fill", note=f" after {'>'.join(hist[:step - 1]) or 'nothing'}")
+                else:
+                    S, E, vol = (S2, E2, vol2) if op == "A2" else (S1, E1, vol1)
+                    settings = dictB if op == "B1" else dictA
+                    data = make_elastdata(S, E, vol)
+                    ret = apply_symetry_on_elast_data(data, settings)      # the shared object itself
+                    if ret is not None and ret is not data:
+                        data = ret
+                    check_elastdata(data, s, S, E, vol, tag + f": ElastData[{','.join(names(S))}]", viol, "c08:history")
+            except BaseException as ex:
+                if isinstance(ex, (KeyboardInterrupt, SystemExit, HarnessError)):
+                    raise
+                viol.append(V(f"c08:history:{s}:raises:{type(ex).__name__}", f"{tag}: operation {op} raised {type(ex).__name__}: {str(ex)[:160]}"))
+            if len(viol) > n0:
+                changed = [f"{nm} is now {cur}, was {snap}" for nm, cur, snap in (("dictA", dictA, snapA), ("dictB", dictB, snapB)) if cur != snap]
+                if changed:
+                    viol[n0]["msg"] += " [the shared settings object was changed by an earlier operation: " + "; ".join(changed) + "]"
+                break
+            digests.append(f"{op}:{sorted(dictA)}:{sorted(dictB)}")
+    return {"viol": dedupe(viol, 1), "outcome": "history:" + ("ok" if not viol else "wrong-result"),
+            "key": f"history:{s}:{''.join(hist)}", "steps": len(hist)}
 
 
 def run_case(case):
@@ -348,6 +477,8 @@ def run_case(case):
         return run_fill(case)
     if kind == "elastdata":
         return run_elastdata(case)
+    if kind == "history":
+        return run_history(case)
     raise HarnessError(f"unknown case kind {kind}")
 
 
@@ -394,7 +525,10 @@ def explore(ctx):
                 "part 2: every sufficient subset (laue_ref rank oracle) of the non-vanishing components x n_V in {1,2,5} through the "
                 "real fill_cij; quick: cubic, hexagonal, tetragonal6, orthorhombic complete, for the other systems sufficient subsets "
                 "with |S| <= minimal+1 plus the full non-vanishing set; thorough: all sufficient subsets of all systems. "
+                "each table with 3 kinds of row labels (default, reversed n-1..0, offset non-contiguous; oracle positional). "
                 "part 3: apply_symetry_on_elast_data on minimal and full sets x {system only, full default key set} x n_V in {1,2}. "
+                "part 4 (mode B): all histories up to depth 3 (thorough 4) over {apply(dictA,table1), apply(dictA,table2), "
+                "apply(dictB,table1), fill_cij} with the settings dict objects shared within a history; result checked after every step. "
                 "non-trivial = every case (each executes the real code / the real relation files on a distinct input)")
     ctx.assumptions = ["sympy exact arithmetic (rational + sqrt(3)), fractions.Fraction",
                        "the relation files use the grammar of laue_ref.parse_relations (anything else is a HARNESS-ERROR, not a pass)",
@@ -429,7 +563,7 @@ def explore(ctx):
         counts[s] = {"subsets_of_nonvanishing": 2 ** len(L.nonvanishing(s)), "sufficient": len(allm), "explored": len(masks)}
         for m in sorted(masks, key=lambda m: (popcount(m), m)):
             cases.append({"kind": "fill", "system": s, "mask": m})
-    nf = len(cases) * len(NVS)
+    nf = len(cases) * (len(NVS) * len(ROWS) - 1)
     res = ctx.run(MOD, "run_case", cases, part="fill", states=nf, transitions=nf, chunksize=4)
     ctx.notes["fill_subsets"] = counts
     ctx.notes["fill_calls"] = sum(r.get("nfill", 0) for r in res)
@@ -445,6 +579,15 @@ def explore(ctx):
                 for fk in (False, True):
                     cases.append({"kind": "elastdata", "system": s, "mask": mask, "nv": nv, "full_keys": fk})
     ctx.run(MOD, "run_case", cases, part="elastdata")
+    # ---- part 4 (mode B): shared settings objects
+    import itertools
+    depth = 3 if ctx.quick else 4
+    cases = [{"kind": "history", "system": s, "history": list(h)}
+             for s in L.SYSTEMS for k in range(1, depth + 1) for h in itertools.product(HISTORY_OPS, repeat=k)]
+    ctx.run(MOD, "run_case", cases, part=f"shared-settings-histories-depth{depth}", states=len(cases),
+            transitions=sum(len(c["history"]) for c in cases))
+    ctx.notes["history_alphabet"] = {"ops": list(HISTORY_OPS), "depth": depth, "histories_per_system": len(cases) // len(L.SYSTEMS)}
+    ctx.notes["row_label_alphabet"] = list(ROWS)
 
 
 def selftest():
